@@ -6,7 +6,7 @@ import layout, report
 TUS = ['time_manager']
 CALC = '_ZN6engine11TimeManager13calculateTimeERKNS_6LimitsENS_5ColorEi'
 FIXED = '_ZN6engine11TimeManager25computeTimeForFixedLengthElii'
-LIMITS = ('LIM', 'Limits', '%"struct.engine::Limits"', ['timeleft', 'timeinc', 'movestogo', 'depth', 'nodes', 'movetime', 'infinite', 'searchmovesnum', 'searchmoves'])
+LIMITS = ('LIM_', 'Limits', '%"struct.engine::Limits"', ['timeleft', 'timeinc', 'movestogo', 'depth', 'nodes', 'movetime', 'infinite', 'searchmovesnum', 'searchmoves'])
 
 def check(ctx):
     m = ctx.module(TUS)
